@@ -581,8 +581,10 @@ class Sup:
         w = self.world
         if new_state == PS.STARTING:
             proc.laststart = int(time.time())
-            w.pid_counter += 1
-            proc.pid = 1000 + w.pid_counter
+            # a pid that is a function of the process only: a global counter would be hidden state (not in the
+            # canonical key, yet visible in every later payload) and made merged states diverge
+            names = [ns for ns, _ in self.procs()]
+            proc.pid = 1000 + 100 * self.idx + names.index(f'{proc.group.config.name}:{proc.config.name}')
             proc.spawnerr = ''
             proc.gt_started_round = w.round
         elif new_state == PS.BACKOFF:
